@@ -167,8 +167,9 @@ inductive Ev where
   | recv (a : Nat) (n : Int) (r : Route) (hs : Bool)
   /-- datagram of `n` bytes leaves for address `a`; `byConn`: written by `Conn.maybeSend`
       (otherwise by the endpoint: Retry, Version Negotiation, stateless reset, close);
-      `c`: the real `antiAmplificationLimit` right after it was accounted. -/
-  | send (a : Nat) (n : Int) (byConn : Bool) (c : Int)
+      `c`: the real `antiAmplificationLimit` right after it was accounted;
+      `k`: bytes taken by the packets, i.e. `n` minus the zero padding after the last packet. -/
+  | send (a : Nat) (n : Int) (byConn : Bool) (c : Int) (k : Int)
   /-- the connection's real credit was observed to have become unlimited. -/
   | validated
   /-- the real credit when everything is idle (`none`: no connection). -/
@@ -190,9 +191,11 @@ def Mon.init : Mon := ⟨false, 0, 0, fun _ => 0, fun _ => 0, fun _ => 0, fun _ 
 def bump (f : Nat → Int) (a : Nat) (n : Int) : Nat → Int := fun x => if x = a then f x + n else f x
 def setB (f : Nat → Bool) (a : Nat) : Nat → Bool := fun x => if x = a then true else f x
 
-/-- The defect region on the wire: a padded (1200-byte) datagram sent with `128 ≤ credit < 1200`. -/
-def knownOvershoot (pre n : Int) : Bool :=
-  decide (minPacketSize ≤ pre) && decide (pre < n) && decide (n = paddedInitial)
+/-- The defect region on the wire: packets that did fit the credit (`k ≤ credit`, so the writer was
+sized correctly) zero-padded to the 1200-byte datagram with `128 ≤ credit < 1200`. -/
+def knownOvershoot (pre n k : Int) : Bool :=
+  decide (minPacketSize ≤ pre) && decide (0 < k) && decide (k ≤ pre) && decide (pre < n) &&
+  decide (n = paddedInitial)
 
 def mstep (m : Mon) : Ev → Except String Mon
   | .recv a n r hs =>
@@ -208,7 +211,7 @@ def mstep (m : Mon) : Ev → Except String Mon
       if !m.hasConn then .error "no-connection" else
       -- a connection only takes credit for datagrams from its own peer address
       if a = m.connAddr then .ok { m with credit := datagramReceived m.credit n } else .ok m
-  | .send a n byConn c =>
+  | .send a n byConn c k =>
     if n < 0 then .error "bad-size" else
     let m := { m with sent := bump m.sent a n }
     if byConn then
@@ -221,7 +224,7 @@ def mstep (m : Mon) : Ev → Except String Mon
       let m := { m with credit := post }
       if n ≤ maxSendSize pre maxDatagramSize then
         if !m.validated a ∧ m.sent a > 3 * m.recvd a + m.over a then .error "amplification" else .ok m
-      else if knownOvershoot pre n then
+      else if knownOvershoot pre n k then
         let m := { m with over := bump m.over a (n - pre) }
         if !m.validated a ∧ m.sent a > 3 * m.recvd a + m.over a then .error "amplification" else .ok m
       else .error "send-exceeds-credit"
